@@ -1472,17 +1472,21 @@ def oracle_accepts(a):
         if not isinstance(t, str):
             continue
         if t in ("XmlDuration", "XmlPeriod"):
-            c = s.strip(XSD_WS)
-            if RX[t].match(c) and c == s.strip():
+            # the XSD lexical spaces of duration / g* as transcribed for C06 (own regexes, no call into xsdata)
+            from props import c06 as _c06
+
+            ref = _c06.xsd_duration(s) if t == "XmlDuration" else _c06.xsd_period(s)
+            if ref is not None:
                 cls = XmlDuration if t == "XmlDuration" else XmlPeriod
                 try:
-                    converter.deserialize(c, [cls])
+                    got = converter.deserialize(s, [cls])
                 except ConverterError:
-                    continue  # not judged: value-level restrictions
-                try:
-                    converter.deserialize(s, [cls])
-                except ConverterError:
-                    return f"{t}: {c!r} is accepted but the same lexical form with surrounding XSD white space {s!r} is rejected"
+                    return f"XSD-valid {t} lexical form {s!r} is rejected"
+                except Exception as e:  # noqa: BLE001
+                    return f"deserialize({s!r}, [{t}]) raised {type(e).__name__}"
+                comp = got.asdict() if t == "XmlDuration" else got.as_dict()
+                if not isinstance(got, cls) or comp != ref:
+                    return f"XSD-valid {t} lexical form {s!r} is read as {comp}, XSD assigns {ref}"
             continue
         if t not in TYPES or t == "unregistered":
             continue
@@ -1535,9 +1539,10 @@ def _enum_accepts(members, s, kw, kwargs):
     exp = None
     if kind == "str":
         vals = [m["v"] for m in members]
-        if s in vals and not any(w in (s.strip(), " ".join(s.split())) for w in vals if w != s):
-            # the lexical form is a member's value verbatim (xs:string enumerations keep white space);
-            # not judged when another member is a white-space variant of it (the lenient match is ambiguous then)
+        if s in vals:
+            # the lexical form is a member's value verbatim (xs:string enumerations keep white space); when another
+            # member is a white-space variant of it the lenient match finds that one first: listed finding
+            # C05-enum-ws-variant, recognised in covered_accepts
             exp = vals.index(s)
         elif any(v != collapse(v) for v in vals):
             return None
@@ -1800,16 +1805,25 @@ def oracle_test(a):
     t = TYPES[a["types"][0]]
     s = a["s"]
     res = converter.test(s, [t], strict=True)
+    # the value and its canonical spelling, computed with the standard library only (the documented canonical forms:
+    # str(int); repr(float) in upper case without "E+", INF / -INF / NaN; Decimal in positional notation, INF / -INF)
     try:
-        v = converter.deserialize(s, [t])
-    except ConverterError:
-        return "test() is True but deserialize fails" if res else None
+        if t is int:
+            v = int(s)
+            canon = str(v)
+        elif t is float:
+            v = float(s)
+            canon = "NaN" if math.isnan(v) else ("INF" if v > 0 else "-INF") if math.isinf(v) else repr(v).upper().replace("E+", "E")
+        else:
+            v = Decimal(s)
+            canon = str(v).replace("Infinity", "INF") if v.is_infinite() else format(v, "f")
+    except (ValueError, ArithmeticError):
+        return "test() is True but the standard library cannot read the string" if res else None
     special = isinstance(v, float) and (math.isnan(v) or math.isinf(v))
     if special and not res:
         return f"test({s!r}, [float], strict) is False for an accepted spelling of a special value (documented: always True)"
-    canon = converter.serialize(v)
     if res and not special and canon != s.strip():
-        return f"test({s!r}, [{t.__name__}], strict) is True but serialize gives {canon!r}"
+        return f"test({s!r}, [{t.__name__}], strict) is True but the canonical spelling is {canon!r}"
     if not res and canon == s.strip():
         return f"test({s!r}, [{t.__name__}], strict) is False although {s!r} is the canonical spelling"
     return None
@@ -1898,31 +1912,122 @@ def _is_uri_ref(u):
     return bool(u) and re.fullmatch(f"{_RFC}*(?:#{_RFC}*)?", u) is not None
 
 
+def _ref_strftime(val, f):
+    """what the platform strftime (glibc: no zero padding of %Y) writes for a format made of the numeric
+    directives; own computation, used only to recognise the listed finding"""
+    parts = {"Y": lambda: str(val.year), "m": lambda: f"{val.month:02d}", "d": lambda: f"{val.day:02d}", "H": lambda: f"{getattr(val, 'hour', 0):02d}",
+             "M": lambda: f"{getattr(val, 'minute', 0):02d}", "S": lambda: f"{getattr(val, 'second', 0):02d}", "f": lambda: f"{getattr(val, 'microsecond', 0):06d}", "%": lambda: "%"}
+    out, i = [], 0
+    while i < len(f):
+        if f[i] == "%" and i + 1 < len(f):
+            if f[i + 1] not in parts:
+                return None
+            out.append(parts[f[i + 1]]())
+            i += 2
+        else:
+            out.append(f[i])
+            i += 1
+    return "".join(out)
+
+
+def _observe_roundtrip(a):
+    """what serialize / deserialize do on this input: (text, ('ok', value) | ('err', exception name))"""
+    v = dec_servalue(a["v"])
+    kwargs = dec_kw(a["kw"])
+    try:
+        s = converter.serialize(v, **kwargs)
+    except Exception as e:  # noqa: BLE001
+        return None, ("err", type(e).__name__)
+    val = v.value if isinstance(v, Enum) else v
+    try:
+        back = ("ok", converter.deserialize(s, [type(val)], **kwargs))
+    except Exception as e:  # noqa: BLE001
+        back = ("err", type(e).__name__)
+    if isinstance(v, Enum):
+        # a member of a one-member enumeration: the finding shows on the member's value; the enumeration then finds no member
+        try:
+            converter.deserialize(s, [type(v)], **kwargs)
+            return s, ("ok", "some member")
+        except ConverterError:
+            pass
+        except Exception as e:  # noqa: BLE001
+            return s, ("err", type(e).__name__)
+    return s, back
+
+
 def covered_roundtrip(a, msg):
+    """a failing input belongs to a listed finding only when it fails in the way the finding describes
+    (the text written and the outcome of reading it back are the ones the unchanged code produces, stated
+    here from the outside); a failure of another kind on an input of the same region is reported"""
     v = a["v"]
     kw = a["kw"]
     inner = v["v"] if v["t"] == "member" else v
     if inner["t"] in ("pydate", "pydatetime") and inner["v"][0] < 1000 and "Y" in dt_directives(kw.get("format") or ""):
-        return "C05-strftime-year"
+        # C05-strftime-year: the text is the platform's strftime output with the year not padded, and reading it back does
+        # exactly what the stdlib strptime does with that text (rejects it, or splits the digits differently)
+        val = dec_atom(inner)
+        f = kw["format"]
+        s, back = _observe_roundtrip(a)
+        ref = _ref_strftime(val, f)
+        if s is None or ref is None or s != ref or v["t"] == "member":
+            return None
+        try:
+            std = _dt.datetime.strptime(s, f)
+            std = ("ok", std if isinstance(val, _dt.datetime) else std.date())
+        except ValueError:
+            std = ("err", "ConverterError")
+        if std == ("ok", val):
+            return None  # the stdlib reads the text back: whatever failed is something else
+        return "C05-strftime-year" if back == std else None
     if inner["t"] == "qname":
         ns, local = qname_parts(inner["v"])
+        s, back = _observe_roundtrip(a)
+        if s is None:
+            return None
         if _is_marked_name(local):
-            return "C05-ncname-unicode"
-        if kw.get("ns_map") is not None:
-            m = kw["ns_map"]
-            if ns is None and _has_default_ns(kw):
+            # C05-ncname-unicode: the name is written unchanged and is_ncname refuses it on the way back
+            written_ok = s == inner["v"] if kw.get("ns_map") is None else (s == local or (s.endswith(":" + local) and s.count(":") == 1))
+            return "C05-ncname-unicode" if written_ok and back == ("err", "ConverterError") else None
+        if kw.get("ns_map") is not None and ns is None and _has_default_ns(kw):
+            # C05-qname-default-ns: written as the bare local name, read back into the default namespace
+            default = dict((k, u) for k, u in kw["ns_map"]).get(None)
+            if s == local and default and back[0] == "ok" and isinstance(back[1], QName) and back[1].text == "{" + default + "}" + local:
                 return "C05-qname-default-ns"
     return None
 
 
+def _ws_variant_winner(vals, s):
+    """C05-enum-ws-variant, stated from the outside: the lenient match of a string enumeration compares every member
+    value, in definition order, with the stripped input and with its white-space-normalised form, before the
+    verbatim value is tried. Returns the index of the member that wins although `s` is another member's value."""
+    if s not in vals:
+        return None
+    cands = (s.strip(), " ".join(s.split()))
+    first = next((k for k, w in enumerate(vals) if w in cands), None)
+    return first if first is not None and first != vals.index(s) else None
+
+
 def covered_accepts(a, msg):
     s = a["s"]
-    if "XmlDuration" in a["types"] and msg.startswith("XmlDuration") and s != s.strip(XSD_WS):
-        return "C05-duration-whitespace"
-    if "QName" in a["types"] and "QName lexical form" in msg:
+    if msg.startswith("enumeration ") and " is read as " in msg:
+        for t in a["types"]:
+            if isinstance(t, str) or {m["t"] for m in t["enum"]} != {"str"}:
+                continue
+            vals = [m["v"] for m in t["enum"]]
+            win = _ws_variant_winner(vals, s)
+            if win is None:
+                continue
+            try:
+                cls = make_enum(t["enum"])
+                got = converter.deserialize(s, [cls], **dec_kw(a["kw"]))
+            except Exception:  # noqa: BLE001
+                continue
+            if got is list(cls)[win]:
+                return "C05-enum-ws-variant"
+    if "QName" in a["types"] and msg.startswith("XSD-valid QName lexical form") and msg.endswith("is rejected"):
+        # C05-ncname-unicode: is_ncname's approximation refuses the local part (the prefix is only looked up, never tested)
         c = collapse(s)
-        local = c.rpartition(":")[2]
-        if _is_marked_name(local) or _is_marked_name(c.partition(":")[0]):
+        if _is_marked_name(c.rpartition(":")[2]):
             return "C05-ncname-unicode"
     return None
 
@@ -2077,7 +2182,16 @@ def f_strftime_year():
     return back != d, f"{s!r} -> {back!r}"
 
 
+def f_enum_ws_variant():
+    cls = make_enum([{"t": "str", "v": "x"}, {"t": "str", "v": " x"}])
+    members = list(cls)
+    s = converter.serialize(members[1])
+    back = converter.deserialize(s, [cls])
+    return s == " x" and back is members[0], f"Enum(M0='x', M1=' x'): M1 -> {s!r} -> {back!r}"
+
+
 FINDINGS = {
+    "C05-enum-ws-variant": f_enum_ws_variant,
     "C05-strftime-year": f_strftime_year,
     "C05-qname-default-ns": f_default_ns,
     "C05-ncname-unicode": f_ncname_marks,
